@@ -21,12 +21,55 @@ func (ro *Roles) reachesDequeue(f *ssa.Function) bool {
 	return false
 }
 
-// dequeueCallAfter: every path from ev to a return passes a call that reaches a dequeue function.
+// alwaysDequeues: every path of f from entry to a return passes a call of a dequeue function
+// (directly, or through a callee that always does) — a wrapper counts as "re-runs the
+// dequeue" only when all its paths do (Min et al.: wrappers by all-paths summaries).
+func (ro *Roles) alwaysDequeues(f *ssa.Function, depth int) bool {
+	if f == nil || f.Blocks == nil || !ro.w.InModule(f) || depth > 3 {
+		return false
+	}
+	if ro.isDequeue(f) {
+		return true
+	}
+	if ro.alwaysMemo == nil {
+		ro.alwaysMemo = map[*ssa.Function]int{}
+	}
+	switch ro.alwaysMemo[f] {
+	case 1:
+		return false // in progress (recursion): assume not
+	case 2:
+		return true
+	case 3:
+		return false
+	}
+	ro.alwaysMemo[f] = 1
+	calls := map[ssa.Instruction]bool{}
+	allInstrs(f, func(in ssa.Instruction) {
+		if c, ok := in.(*ssa.Call); ok {
+			if cf := c.Call.StaticCallee(); cf != nil && (ro.isDequeue(cf) || ro.alwaysDequeues(cf, depth+1)) {
+				calls[in] = true
+			}
+		}
+	})
+	res := PathQuery{Fn: f, Target: isReturn, BlockInstr: func(x ssa.Instruction) bool { return calls[x] }}.Find()
+	if len(calls) > 0 && !res.Found {
+		ro.alwaysMemo[f] = 2
+		return true
+	}
+	ro.alwaysMemo[f] = 3
+	return false
+}
+
+// dequeueCallAfter: every path from ev to a return passes a call that (always) re-runs the dequeue.
 func (ro *Roles) dequeueCallAfter(fn *ssa.Function, ev ssa.Instruction) PathResult {
 	calls := map[ssa.Instruction]bool{}
-	for _, c := range ro.callsReaching(fn, ro.reachesDequeue) {
-		calls[c] = true
-	}
+	allInstrs(fn, func(in ssa.Instruction) {
+		if c, ok := in.(*ssa.Call); ok {
+			if cf := c.Call.StaticCallee(); cf != nil && ro.alwaysDequeues(cf, 0) {
+				calls[in] = true
+			}
+		}
+	})
 	return PathQuery{Fn: fn, Start: []ssa.Instruction{ev}, Target: isReturn,
 		BlockInstr: func(x ssa.Instruction) bool { return calls[x] }}.Find()
 }
@@ -108,7 +151,7 @@ func (ro *Roles) expiryHandler(r *Report, rule string) {
 			if e.Kind == "store" && strings.HasSuffix(e.Target, ".startTimer") && e.Val == "nil" {
 				cleared = i
 			}
-			if e.Kind == "call" && ro.reachesDequeue(e.Callee) && cleared >= 0 {
+			if e.Kind == "call" && ro.alwaysDequeues(e.Callee, 0) && cleared >= 0 {
 				dq = i
 			}
 		}
